@@ -521,6 +521,7 @@ fn gen_special(rng: &mut Rng, max_dim: u32) -> Option<Img> {
             desc,
             enc_desc: enc.desc.clone(),
             frame_layout: fl,
+            preview: None,
             num_color,
             hard_range: (range_lo, range_hi),
             track: enc.track,
